@@ -8,6 +8,7 @@ import Arca.Driver.Parse
 import Arca.Driver.Provider
 import Arca.Driver.Prepare
 import Arca.Driver.Foreach
+import Arca.Driver.EngineApi
 
 open Lean (Json)
 open Arca.Driver
@@ -51,4 +52,5 @@ def main (args : List String) : IO UInt32 := do
   | "provider" :: rest => cmdProvider rest; return 0
   | "prepare" :: rest => cmdPrepare rest; return 0
   | "foreach" :: rest => cmdForeach rest; return 0
+  | "engineapi" :: rest => cmdEngineApi rest; return 0
   | _ => IO.eprintln "usage: arcadrv loop [errCap]"; return 2
